@@ -289,6 +289,13 @@ func setUniqueKey(obj *orderedmap.OrderedMap, key string, value any) error {
 func (api *API) mapEncodeSlice(ctx context.Context, value reflect.Value, valueType reflect.Type,
 	ts TypeSettings, opts *options) (any, error) {
 	if ts.ObjectType() != nil && valueType.AssignableTo(bytesType) {
+		// (the decoder applies the length bounds to the typed form as well)
+		if opts.validation {
+			if err := ts.checkMinMaxBoundsLength(len(value.Bytes())); err != nil {
+				return nil, ierrors.Wrapf(err, "can't serialize '%s' type", value.Kind())
+			}
+		}
+
 		m := orderedmap.New()
 		m.Set(keyType, ts.ObjectType())
 		fieldKey := keyDefaultSliceArray
